@@ -47,7 +47,7 @@ def procs(spec, ptypes):
 
 
 def check_and_replay(res, name, K, own, depth_all=3, walks=2000, walk_len=30, invariants=INVARIANTS,
-                     properties=PROPERTIES, edges=True, label_filter=None):
+                     properties=PROPERTIES, edges=True, label_filter=None, weak_pass=False):
     desper = common.import_desper()
     r, g = res.model_check_py('World', name, K, invariants=invariants, properties=properties, dump=True)
 
@@ -58,6 +58,11 @@ def check_and_replay(res, name, K, own, depth_all=3, walks=2000, walk_len=30, in
     if edges:
         st = replay.run_paths(g, factory, replay.edge_paths(g), own=own)
         res.absorb(st, name + ':every-edge', g)
+    if weak_pass and not (st and st.n_violations):
+        # the same edges with the world holding the ONLY strong reference to every attached component: what the world
+        # owes a component after detaching it (a postponed on_remove) must not depend on somebody else keeping it alive
+        st = replay.run_paths(g, lambda: WorldAdapter(desper, K, weak=True), replay.edge_paths(g), own=own)
+        res.absorb(st, name + ':every-edge (world holds the only strong references)', g)
     if depth_all and not (st and st.n_violations):
         st = replay.run_paths(g, factory, replay.all_paths(g, depth_all, label_filter=label_filter), own=own)
         res.absorb(st, name + ':all-paths-depth-%d' % depth_all, g)
